@@ -28,6 +28,7 @@ import time
 from typing import Any, Dict, List, Optional, Tuple
 
 import c09_gen as g
+import lexstage
 import pyside
 from vlib import VERIF, Broken, Check, clist, run_workers
 
@@ -54,6 +55,9 @@ ASSUME = [
     "characters are modelled as bytes (Coq ascii, code points 0..255); code points above 255 behave like any "
     "other ordinary character in the escape loop",
     "the item -> class-of-p[1] map of Total.item_class is hand-written (tied by T2 on every item kind)",
+    "regexes: CPython's sre explores no more configurations on a FLAT regex (ReLinear.is_flat: no nested / ambiguous "
+    "quantifier) than the backtracking matcher ReLinear.bt whose step count is proved polynomial; sre itself is not "
+    "modelled; search()/sub() restart at every position (one more factor n+1)",
 ]
 
 EXN = {"IndexError", "KeyError", "ValueError", "ZeroDivisionError", "AttributeError", "TypeError",
@@ -105,7 +109,8 @@ def make_jobs(ck: Check, inputs: List[g.Input], limit: float, cli_every: int, ta
     jobs = []
     for i, inp in enumerate(inputs):
         jobs.append(dict(kind="compile", id=i, dir=os.path.join(ck.dir, f"{tag}{i}"), files=inp["files"],
-                         main=inp["main"], symlinks=inp.get("symlinks", {}), limit=limit,
+                         main=inp["main"], symlinks=inp.get("symlinks", {}),
+                         limit=min(limit, float(inp.get("limit", limit))),
                          cli=bool(inp.get("cli")) or (cli_every > 0 and i % cli_every == 0),
                          cli_check=bool(inp.get("cli_check")), cli_lang=inp.get("cli_lang", "py")))
     return jobs
@@ -133,6 +138,7 @@ def still_fails(ck: Check, inp: g.Input, candidates: List[Any], stage: str, sig:
         files = dict(inp["files"])
         files[inp["main"]] = c
         inputs.append({"files": files, "main": inp["main"], "symlinks": inp.get("symlinks", {}),
+                       "limit": inp.get("limit", limit),
                        "cli": stage in ("cli", "cli_check"), "cli_check": stage == "cli_check",
                        "cli_lang": inp.get("cli_lang", "py")})
     res = run_inputs(ck, inputs, limit, 0, tag)
@@ -142,7 +148,8 @@ def still_fails(ck: Check, inp: g.Input, candidates: List[Any], stage: str, sig:
     return out
 
 
-def shrink(ck: Check, inp: g.Input, stage: str, sig: Tuple[str, str], limit: float) -> g.Input:
+def shrink(ck: Check, inp: g.Input, stage: str, sig: Tuple[str, str], limit: float,
+           max_rounds: int = 40) -> g.Input:
     """delta debugging on lines, then on characters, of the main file (batched ddmin)."""
     main = inp["files"][inp["main"]]
     binary = not isinstance(main, str)
@@ -160,7 +167,7 @@ def shrink(ck: Check, inp: g.Input, stage: str, sig: Tuple[str, str], limit: flo
 
     def ddmin(units: List[str]) -> List[str]:
         n = 2
-        while len(units) >= 2 and rounds[0] < 40:
+        while len(units) >= 2 and rounds[0] < max_rounds:
             rounds[0] += 1
             size = max(1, len(units) // n)
             chunks = [units[i:i + size] for i in range(0, len(units), size)]
@@ -503,6 +510,10 @@ def run(ck: Check) -> None:
             sh["cli_check"] = True
             sh["cli_lang"] = ("c", "go")[(k // 16) % 2]
     inputs.extend(shapes)
+    long_ids = g.long_identifier_shapes()
+    inputs.extend(long_ids)
+    inputs.extend(g.trailing_blank_like())
+    inputs.extend(g.dotted_references())
     inputs.extend(g.directed(rng, N(240, 3000)))
     inputs.extend(g.inside_known(rng, ck.n(22, 110)))
 
@@ -612,6 +623,33 @@ def run(ck: Check) -> None:
                                      f"(observed {st.get('cls')} {st.get('exc', st.get('error', ''))}); "
                                      "update known_findings.jsonl, the guard and the _refuted theorem"))
 
+    # long identifiers: CPU time of parse+lint+render must not explode with the run length
+    fam: Dict[Any, List[Tuple[int, float, int]]] = {}
+    for idx, (inp, r) in enumerate(zip(inputs, results)):
+        if "family" in inp and "cpu_s" in r:
+            fam.setdefault(tuple(inp["family"]), []).append((inp["run"], float(r["cpu_s"]), idx))
+    growth_hits = []
+    long_cpu: Dict[int, float] = {}
+    for key, pts in fam.items():
+        pts.sort()
+        for (n1, t1, i1), (n2, t2, i2) in zip(pts, pts[1:]):
+            long_cpu[n2] = max(long_cpu.get(n2, 0.0), t2)
+            long_cpu[n1] = max(long_cpu.get(n1, 0.0), t1)
+            if t2 >= 0.25 and t2 >= 8 * max(t1, 0.01):
+                growth_hits.append((key, n1, t1, n2, t2, i1, i2))
+    if growth_hits:
+        # confirm alone (load), then report the first family
+        key, n1, t1, n2, t2, i1, i2 = growth_hits[0]
+        again = run_inputs(ck, [dict(inputs[i1]), dict(inputs[i2])], limit, 0, "grow")
+        a1, a2 = float(again[0].get("cpu_s", 0)), float(again[1].get("cpu_s", 0))
+        if a2 >= 0.25 and a2 >= 8 * max(a1, 0.01) and not any(
+                st.get("cls") == "hang" for _, st in stage_failures(results[i2])):
+            ck.violation(f"compilation time explodes with the length of an identifier ({key[0]}, as a {key[1]} name): "
+                         f"{a1:.3f}s of CPU for a run of {n1}, {a2:.3f}s for a run of {n2}",
+                         {"files": inputs[i2]["files"], "main": inputs[i2]["main"], "origin": inputs[i2]["origin"],
+                          "shorter_input": inputs[i1]["files"], "cpu_seconds": {str(n1): a1, str(n2): a2},
+                          "stage": "parse+lint+render", "exception": "SUPERLINEAR"}, found_input=True, key=None)
+
     # a HANG verdict is re-examined alone (the machine may have been loaded)
     unconfirmed = []
     for sig, ent in list(classes.items()):
@@ -619,6 +657,7 @@ def run(ck: Check) -> None:
             inp = dict(inputs[ent["first"]])
             inp["cli"] = ent["stage"] in ("cli", "cli_check")
             inp["cli_check"] = ent["stage"] == "cli_check"
+            inp["limit"] = float(inp.get("limit", limit)) * 2
             again = run_inputs(ck, [inp], limit * 2, 0, "hang")[0]
             if not any(st.get("cls") == "hang" for _, st in stage_failures(again)):
                 unconfirmed.append({"stage": ent["stage"], "origin": inp.get("origin"), "count": ent["count"]})
@@ -639,11 +678,14 @@ def run(ck: Check) -> None:
         if n_viol > 5:
             continue
         small = inp
-        if st.get("cls") == "crash":
-            try:
+        try:
+            if st.get("cls") == "crash":
                 small = shrink(ck, inp, ent["stage"], sig, limit)
-            except Exception:  # noqa
-                small = inp
+            elif st.get("cls") == "hang" and "limit" in inp and n_viol <= 2:
+                # only inputs with a small own budget are shrunk (every test may run into the limit)
+                small = shrink(ck, inp, ent["stage"], sig, float(inp["limit"]), max_rounds=14)
+        except Exception:  # noqa
+            small = inp
         what = (f"HANG: no result within {limit:.0f}s in stage {ent['stage']}" if st.get("cls") == "hang" else
                 f"compilation is not total: {sig[0]} escapes from {sig[1]} (stage {ent['stage']}) instead of a "
                 f"parser error")
@@ -719,7 +761,11 @@ def run(ck: Check) -> None:
                    "token sequences, directed damage (unbalanced braces, stray characters, bad escapes, unterminated "
                    "strings, long literals below the digit limit, deep nesting, long lines, identifier shapes (every "
                    "definition kind x leading/trailing/doubled underscores, single characters, digits, ALLCAPS, mixedCase, "
-                   "300-character names; lint + c/go/py, CLI normal and -c on a sample), imports of missing / self / "
+"300-character names; lint + c/go/py, CLI normal and -c on a sample), long identifiers (runs of 16..64 "
+                   "capitals / digits / underscores followed by another class, repeated groups; budget 3 CPU-seconds per "
+                   "stage, and CPU time compared across run lengths), blank-like characters (\\f \\v 0x1c-0x1f NEL NBSP "
+                   "U+2028 U+3000 ...) where only blanks follow up to the end of input, dotted references (every definition "
+                   "kind as first / middle / last component x type / capacity / constant / option positions), imports of missing / self / "
                    "cyclic / directory / symlink-loop / damaged files) and a small stream inside each known class. "
                    "distinct = distinct main-file contents, non-trivial = longer than 12 characters. "
                    "T2 cases are evaluated by Coq against the model (see tie).")
@@ -750,6 +796,7 @@ def run(ck: Check) -> None:
     except Exception as e:  # noqa
         cov["grammar_cover"] = {"error": repr(e)}
     cov["cli_runs_per_diagnostic_class"] = box.get("cli_classes")
+    cov["long_identifier_cpu_s_by_run_length"] = {str(k): v for k, v in sorted(long_cpu.items())}
     cov["timings"] = timings
     cov["unconfirmed_hangs"] = unconfirmed
     cov["tie"] = {**cov.get("tie", {}), "t2_cases": n_t2, "codes": tie_counts, "corpus": n_corpus,
@@ -771,6 +818,7 @@ def run(ck: Check) -> None:
     if lex_metas and "lex" in box:
         samples.append({"t2_case": {k: v for k, v in lex_metas[20].items()}, "lexer_observed": box["lex"][20]})
     cov["samples"] = samples
+    lexstage.lex_stage(ck, "C09_lex.v", 1, 8, "C09")    # text level: the tokenizer (tools/lexstage.py)
     # the LR driver on the validated tables: no IndexError/KeyError, linear fuel bound (tools/lrstage.py)
     import lrstage
     lrstage.lr_stage(ck, "C09_lr.v", lrstage.QUICK_C09, lrstage.THOROUGH_C09, "lr")
